@@ -127,7 +127,7 @@ func (s *Syncer) SendOnce(ctx context.Context, env *lmdb.Env) (txnID header.TxnI
 		// We always return LMDB reading errors, as these are really unexpected
 		return 0, err
 	}
-	verifYield(s, "send.txnDone", txnID)
+	verifYield(s, "send.txnDone", txnID, ts)
 	tDumped := time.Now()
 
 	// If no actual changes were made, LMDB will not record the transaction
